@@ -76,8 +76,6 @@ pub mod clock {
 
 /// Yield points (DESIGN 3.4): a harness-installed interposition callback.
 pub mod yp {
-    use std::sync::atomic::{AtomicUsize, Ordering};
-
     #[derive(Copy, Clone, Eq, PartialEq, Debug)]
     pub enum Y {
         ItemAfterPolicyAdd,
@@ -89,19 +87,23 @@ pub mod yp {
         CleanupBetween,
     }
 
-    static HOOK: AtomicUsize = AtomicUsize::new(0);
+    // a plain function pointer (never an integer: int-to-pointer casts make CBMC consider every
+    // function a possible target)
+    static mut HOOK: Option<fn(Y)> = None;
 
     pub fn install(f: fn(Y)) {
-        HOOK.store(f as usize, Ordering::SeqCst);
+        unsafe {
+            HOOK = Some(f);
+        }
     }
     pub fn uninstall() {
-        HOOK.store(0, Ordering::SeqCst);
+        unsafe {
+            HOOK = None;
+        }
     }
     #[inline]
     pub fn yield_point(y: Y) {
-        let h = HOOK.load(Ordering::SeqCst);
-        if h != 0 {
-            let f: fn(Y) = unsafe { std::mem::transmute::<usize, fn(Y)>(h) };
+        if let Some(f) = unsafe { HOOK } {
             f(y);
         }
     }
